@@ -130,9 +130,25 @@ let show_mem ((nargs, results), store) =
     (List.map (show_res nargs) results
      @ List.mapi (fun k a -> Printf.sprintf "A%d[%s]" k (String.concat "," (List.map z_to_string a))) arrs)
 
+(* SliceAggModel: int8 / uint8 / float64 aggregates and the single-pair functions *)
+let call2_of_words = function
+  | ["MaxI8"; a] -> Some (SliceAggModel.C2Max8 (true, sl a)) | ["MaxU8"; a] -> Some (SliceAggModel.C2Max8 (false, sl a))
+  | ["MinI8"; a] -> Some (SliceAggModel.C2Min8 (true, sl a)) | ["MinU8"; a] -> Some (SliceAggModel.C2Min8 (false, sl a))
+  | ["SumI8"; a] -> Some (SliceAggModel.C2Sum8 (true, sl a)) | ["SumU8"; a] -> Some (SliceAggModel.C2Sum8 (false, sl a))
+  | ["MaxF64"; a] -> Some (SliceAggModel.C2MaxF (pairs_of_string a))
+  | ["MinF64"; a] -> Some (SliceAggModel.C2MinF (pairs_of_string a))
+  | ["NewPair"; k; v] -> Some (SliceAggModel.C2NewPair (z k, z v))
+  | ["PairSplit"; k; v] -> Some (SliceAggModel.C2Split (z k, z v))
+  | ["PairString"; k; v] -> Some (SliceAggModel.C2String (z k, z v))
+  | _ -> None
+
 let run () =
   iter_lines (fun line ->
     match words line with
+    | _ :: rest when (try call2_of_words rest <> None with Failure _ | Invalid_argument _ -> false) ->
+      (match call2_of_words rest with
+       | Some c -> print_endline (String.concat " " (List.map show_ov (SliceAggModel.run2 c)))
+       | None -> print_endline "badcase")
     | ty :: rest ->
       (match (try Some (call_of_words rest, layout_of_ty ty) with Failure _ | Invalid_argument _ -> None) with
        | Some (c, (off, spare)) ->
